@@ -77,10 +77,7 @@ func (h *NFSProcedureHandler) HandleCall(call *RPCCall, body io.Reader, authCtx 
 	// is in progress, causing us to return JUKEBOX so clients retry.
 	if !handler.policyRWMu.TryRLock() {
 		// Policy drain in progress -- return NFSERR_JUKEBOX
-		var buf bytes.Buffer
-		xdrEncodeUint32(&buf, NFSERR_JUKEBOX)
-		reply.Data = buf.Bytes()
-		return reply, nil
+		return busyReply(reply, call.Header.Program, call.Header.Procedure), nil
 	}
 	// DO NOT defer RUnlock here -- the goroutine owns the lock so that
 	// drain-and-swap blocks until the goroutine's filesystem work finishes,
@@ -172,6 +169,38 @@ func (h *NFSProcedureHandler) HandleCall(call *RPCCall, body io.Reader, authCtx 
 		return nil, fmt.Errorf("operation timed out")
 	case result := <-replyChan:
 		return result, nil
+	}
+}
+
+// busyReply fills in the "try again later" answer for a call that arrives while a
+// policy update is draining requests. The status is NFS3ERR_JUKEBOX, carried in
+// the failure result of the procedure that was called (RFC 1813 gives each
+// procedure its own *resfail layout, so a bare status word is only right for
+// GETATTR). Procedures without a status (NULL, the MOUNT program) and unknown
+// procedures get an RPC-level answer instead.
+func busyReply(reply *RPCReply, program, procedure uint32) *RPCReply {
+	if program != NFS_PROGRAM {
+		reply.AcceptStatus = SYSTEM_ERR
+		return reply
+	}
+	switch procedure {
+	case NFSPROC3_NULL:
+		return reply
+	case NFSPROC3_GETATTR:
+		return nfsErrorReply(reply, NFSERR_JUKEBOX)
+	case NFSPROC3_LOOKUP, NFSPROC3_ACCESS, NFSPROC3_READLINK, NFSPROC3_READ,
+		NFSPROC3_READDIR, NFSPROC3_READDIRPLUS, NFSPROC3_FSSTAT, NFSPROC3_FSINFO, NFSPROC3_PATHCONF:
+		return nfsErrorWithPostOp(reply, NFSERR_JUKEBOX)
+	case NFSPROC3_SETATTR, NFSPROC3_WRITE, NFSPROC3_CREATE, NFSPROC3_MKDIR, NFSPROC3_SYMLINK,
+		NFSPROC3_MKNOD, NFSPROC3_REMOVE, NFSPROC3_RMDIR, NFSPROC3_COMMIT:
+		return nfsErrorWithWcc(reply, NFSERR_JUKEBOX)
+	case NFSPROC3_RENAME:
+		return nfsErrorWithDoubleWcc(reply, NFSERR_JUKEBOX)
+	case NFSPROC3_LINK:
+		return nfsErrorWithPostOpAndWcc(reply, NFSERR_JUKEBOX)
+	default:
+		reply.AcceptStatus = PROC_UNAVAIL
+		return reply
 	}
 }
 
